@@ -12,8 +12,12 @@ This file proves, for a prefetch-mode run over ANY database (scaled values mixed
   non-zero containment (`AssertLaws.nonzero`);
 * the second assert (`assert cont >= threshold`) compares `contained_by` (libm `pow`) with a threshold that
   went through two float divisions; that an overlap which is not below `n_threshold_hashes` scores at least
-  `threshold` is the explicit hypothesis `AssertLaws.above` (proved for `threshold_bp = 0` in
-  `Lemmas/GatherRatOps.lean`; for other thresholds it is exercised by the correspondence stream only);
+  `threshold` is `AssertLaws.above`.  It is PROVED here (`assertLaws_of_debias`) from the monotonicity of the
+  correctly rounded quotient (C06) for every score arithmetic whose containment is at least the plain double
+  quotient `fl(c/d)` (`DebiasLaws.dominates`) -- the one statement that depends on libm `pow`: de-biasing
+  divides by `1 − (1 − 1/s)^(d·s)`, which is `≤ 1` iff `pow` returns a value in `[0, 1]`.  `plainOps` (the
+  double quotient without de-biasing, which is what the code computes once the bias factor rounds to 1.0)
+  satisfies it for every threshold; `ratOps` / `qOps` (exact values) satisfy `AssertLaws` for threshold 0;
 * the `assert`s of `GatherResult` (non-empty unique intersection) and of `__next__` (`match.scaled`) are
   unreachable because the returned intersection is non-empty at the counter's resolution, hence at the
   (finer or equal) resolution of the result.
@@ -22,6 +26,7 @@ import SmVerif.Lemmas.GatherMixed
 import SmVerif.Lemmas.GatherInit
 import SmVerif.Lemmas.GatherExamples
 import SmVerif.Lemmas.GatherDebias
+import SmVerif.Lemmas.GatherThreshold
 
 set_option autoImplicit false
 
@@ -37,7 +42,7 @@ structure AssertLaws (ops : ScoreOps σ) (thrBp : Nat) : Prop where
   nonzero : ∀ c d s : Nat, c ≠ 0 → c ≤ d → 1 ≤ s → ops.isZero (ops.contained c d s) = false
   /-- an overlap at least as large as one that is not below `n_threshold_hashes` scores at least `threshold` -/
   above : ∀ (c k d s : Nat) (t nT : F64.F), calcThreshold thrBp s d = .ok (t, nT) →
-    belowThreshold (k : Int) nT = false → k ≠ 0 → k ≤ c → c ≤ d → 1 ≤ s →
+    belowThreshold (k : Int) nT = false → k ≠ 0 → k ≤ c → c ≤ d → 1 ≤ s → s ≤ 2 ^ 31 → d < 2 ^ 53 →
     ops.ge (ops.contained c d s) (ops.ofF t) = true
 
 /-! ### the sketch operations never raise `AssertionError` -/
@@ -313,7 +318,8 @@ theorem Counter.peek_hit {c c' : Counter LS} {cur : LS} {thr : Nat} {r : Option 
 
 /-- **the patched `peek` raises no `AssertionError`** on a counter whose entries have non-zero counters -/
 theorem Counter.peek_na {thr : Nat} (laws : AssertLaws ops thr) {c : Counter LS} {cur : LS}
-    (hc : CNZ c) (hcs : Sorted cur.hs) : c.peek lsOps ops cur thr ≠ .error .assertion := by
+    (hc : CNZ c) (hcs : Sorted cur.hs) (hcur : cur.scaled ≤ 2 ^ 31) (hlen : cur.hs.length < 2 ^ 53) :
+    c.peek lsOps ops cur thr ≠ .error .assertion := by
   intro h
   unfold Counter.peek at h
   by_cases hem : c.entries.isEmpty = true
@@ -371,6 +377,8 @@ theorem Counter.peek_na {thr : Nat} (laws : AssertLaws ops thr) {c : Counter LS}
             simp only [Bool.false_eq_true, if_false] at h
             have hge := laws.above cc inter.hs.length (cur.dsv (max c.scaled cur.scaled)).hs.length
               (max c.scaled cur.scaled) t nT hct (by rw [b8]; exact b6) hk0 hk hcc2 hs1
+              (max_le hc.scaled_le hcur)
+              (lt_of_le_of_lt (by rw [LS.dsv_hs]; exact List.length_filter_le _ _) hlen)
             rw [hge] at h
             simp at h
 
@@ -445,7 +453,7 @@ theorem better_hit {cur : LS} {r acc : Option (σ × Sig LS × LS)}
       · exact ha x hx
 
 theorem peekAll_nz {thr : Nat} (laws : AssertLaws ops thr) {cur : LS} (hcs : Sorted cur.hs)
-    (hcur : cur.scaled ≤ 2 ^ 31) :
+    (hcur : cur.scaled ≤ 2 ^ 31) (hlen : cur.hs.length < 2 ^ 53) :
     ∀ (cs : List (CObj LS)) (acc : Option (σ × Sig LS × LS)), (∀ o ∈ cs, CGOK o) →
       (∀ x, acc = some x → Hit cur x) →
       peekAll lsOps ops cur thr cs acc ≠ .error .assertion ∧
@@ -471,7 +479,7 @@ theorem peekAll_nz {thr : Nat} (laws : AssertLaws ops thr) {cur : LS} (hcs : Sor
       refine ⟨?_, fun _ _ h => nomatch h⟩
       intro h
       cases h
-      exact Counter.peek_na laws hc hcs hp
+      exact Counter.peek_na laws hc hcs hcur hlen hp
     | ok pr =>
       obtain ⟨c', r⟩ := pr
       simp only []
@@ -517,11 +525,12 @@ theorem consumeAll_nz (inter : LS) : ∀ cs : List (CObj LS), (∀ o ∈ cs, CGO
 
 /-- `_find_best` raises no `AssertionError`, keeps the counters' invariant, and what it returns hits the query -/
 theorem findBest_nz {thr : Nat} (laws : AssertLaws ops thr) {cur : LS} (hcs : Sorted cur.hs)
-    (hcur : cur.scaled ≤ 2 ^ 31) {cs : List (CObj LS)} (hcg : ∀ o ∈ cs, CGOK o) :
+    (hcur : cur.scaled ≤ 2 ^ 31) (hlen : cur.hs.length < 2 ^ 53) {cs : List (CObj LS)}
+    (hcg : ∀ o ∈ cs, CGOK o) :
     findBest lsOps ops cs cur thr ≠ .error .assertion ∧
     ∀ cs' r, findBest lsOps ops cs cur thr = .ok (cs', r) →
       (∀ o ∈ cs', CGOK o) ∧ ∀ x, r = some x → Hit cur x := by
-  obtain ⟨p1, p2⟩ := peekAll_nz laws hcs hcur cs none hcg (fun _ hx => nomatch hx)
+  obtain ⟨p1, p2⟩ := peekAll_nz laws hcs hcur hlen cs none hcg (fun _ hx => nomatch hx)
   unfold findBest
   cases hp : peekAll lsOps ops cur thr cs none with
   | error e =>
@@ -708,6 +717,7 @@ structure NInv (thr : Nat) (g : GD LS) : Prop where
   q_sorted : Sorted g.query.hs
   q_scaled : g.query.scaled = g.cmpScaled
   q_le : g.cmpScaled ≤ 2 ^ 31
+  q_small : g.query.hs.length < 2 ^ 53
   thr_eq : g.thresholdBp = thr
   cg : ∀ o ∈ g.counters, CGOK o
 
@@ -718,7 +728,7 @@ theorem next_na {thr : Nat} (laws : AssertLaws ops thr) {g : GD LS} (hinv : NInv
   split at h
   · cases h
   · have laws' : AssertLaws ops g.thresholdBp := by rw [hinv.thr_eq]; exact laws
-    obtain ⟨f1, f2⟩ := findBest_nz laws' hinv.q_sorted (by rw [hinv.q_scaled]; exact hinv.q_le) hinv.cg
+    obtain ⟨f1, f2⟩ := findBest_nz laws' hinv.q_sorted (by rw [hinv.q_scaled]; exact hinv.q_le) hinv.q_small hinv.cg
     cases hf : findBest lsOps ops g.counters g.query g.thresholdBp with
     | error e => rw [hf] at h; cases h; exact f1 hf
     | ok fr =>
@@ -743,7 +753,7 @@ theorem next_ninv {thr : Nat} (laws : AssertLaws ops thr) {g g' : GD LS} {r : Op
     exact hinv
   rw [if_neg h0] at h
   have laws' : AssertLaws ops g.thresholdBp := by rw [hinv.thr_eq]; exact laws
-  obtain ⟨_, f2⟩ := findBest_nz laws' hinv.q_sorted (by rw [hinv.q_scaled]; exact hinv.q_le) hinv.cg
+  obtain ⟨_, f2⟩ := findBest_nz laws' hinv.q_sorted (by rw [hinv.q_scaled]; exact hinv.q_le) hinv.q_small hinv.cg
   cases hf : findBest lsOps ops g.counters g.query g.thresholdBp with
   | error e => rw [hf] at h; cases h
   | ok fr =>
@@ -754,7 +764,7 @@ theorem next_ninv {thr : Nat} (laws : AssertLaws ops thr) {g g' : GD LS} {r : Op
     | none =>
       simp only [Except.ok.injEq, Prod.mk.injEq] at h
       obtain ⟨rfl, rfl⟩ := h
-      exact ⟨hinv.q_sorted, hinv.q_scaled, hinv.q_le, hinv.thr_eq, f3⟩
+      exact ⟨hinv.q_sorted, hinv.q_scaled, hinv.q_le, hinv.q_small, hinv.thr_eq, f3⟩
     | some x =>
       obtain ⟨sc, best, inter⟩ := x
       simp only [] at h
@@ -762,7 +772,7 @@ theorem next_ninv {thr : Nat} (laws : AssertLaws ops thr) {g g' : GD LS} {r : Op
       obtain ⟨_, g1, res, hu, _, _, hg', _, _⟩ := report_ls h
       obtain ⟨u1, u2, u3, _, u5, _⟩ := updateScaled_ls hu
       simp only [] at u1 u2 u3 u5 s1
-      refine ⟨?_, ?_, ?_, ?_, ?_⟩
+      refine ⟨?_, ?_, ?_, ?_, ?_, ?_⟩
       · rw [hg']
         show Sorted (LS.removeFrom (g1.query.dsv g1.cmpScaled) (best.mh.dsv g1.cmpScaled).flat).hs
         rw [LS.removeFrom_hs]
@@ -775,6 +785,12 @@ theorem next_ninv {thr : Nat} (laws : AssertLaws ops thr) {g g' : GD LS} {r : Op
         rw [u1]
         have := hinv.q_le
         exact max_le this (le_trans s1 s3)
+      · rw [hg']
+        show (LS.removeFrom (g1.query.dsv g1.cmpScaled) (best.mh.dsv g1.cmpScaled).flat).hs.length < 2 ^ 53
+        rw [LS.removeFrom_hs]
+        show (diffL (dn g1.cmpScaled g1.query.hs) _).length < 2 ^ 53
+        rw [u2]
+        exact lt_of_le_of_lt (le_trans (List.length_filter_le _ _) (List.length_filter_le _ _)) hinv.q_small
       · rw [hg']
         show g1.thresholdBp = thr
         rw [u5]
@@ -870,9 +886,10 @@ theorem ninv_init {q : LS} (hq : q.WF) {thr : Nat} {dbs : List (List (Sig LS))} 
     {ign : Bool} {g : GD LS}
     (hdb : ∀ db ∈ dbs, ∀ d ∈ db, Sorted d.mh.hs ∧ 1 ≤ d.mh.scaled ∧ d.mh.scaled ≤ 2 ^ 31)
     (hcs : List.Forall₂ (fun db c => counterGather lsOps db q thr = .ok c) dbs cs)
+    (hsize : q.hs.length < 2 ^ 53)
     (h : GD.init lsOps q (cs.map CObj.cg) thr ign none none = .ok g) : NInv thr g := by
   obtain ⟨i1, i2, i3, i4, i5, _⟩ := init_plain hq h
-  refine ⟨by rw [i1]; exact hq.sorted, by rw [i2, i3], by rw [i3]; exact hq.hi, i5, ?_⟩
+  refine ⟨by rw [i1]; exact hq.sorted, by rw [i2, i3], by rw [i3]; exact hq.hi, by rw [i1]; exact hsize, i5, ?_⟩
   rw [i4]
   intro o ho
   obtain ⟨c, hc, rfl⟩ := List.mem_map.1 ho
@@ -892,7 +909,7 @@ theorem ratOps_assertLaws_zero : AssertLaws ratOps 0 := by
   · intro c d s hc _ _
     show decide (c = 0) = false
     simpa using hc
-  · intro c k d s t nT hct _ _ _ _ _
+  · intro c k d s t nT hct _ _ _ _ _ _ _
     rw [calcThreshold_zero] at hct
     cases hct
     show decide (c * 1 ≥ 0 * d) = true
@@ -913,7 +930,7 @@ theorem qOps_assertLaws_zero : AssertLaws qOps 0 := by
     have := hpos c d s hc hcd hs
     simp only [decide_eq_false_iff_not]
     exact ne_of_gt this
-  · intro c k d s t nT hct _ hk hkc hcd hs
+  · intro c k d s t nT hct _ hk hkc hcd hs _ _
     rw [calcThreshold_zero] at hct
     cases hct
     show decide (((fzero.m : ℚ)) * (2 : ℚ) ^ fzero.e ≤ containedQ c d s) = true
@@ -922,5 +939,66 @@ theorem qOps_assertLaws_zero : AssertLaws qOps 0 := by
     rw [h0]
     simp only [decide_eq_true_eq]
     exact le_of_lt this
+
+/-! ### `AssertLaws` for every threshold, from the libm-dependent core -/
+
+/-- what is left to assume about the score arithmetic: an order that extends the one on doubles, and
+`dominates` -- the de-biased containment is at least the plain double quotient `fl(c/d)`.  In the code
+`cont = c / (d · (1 − (1 − 1/s)^(d·s)))` in doubles: `≥ fl(c/d)` because multiplication and division round
+monotonically, PROVIDED libm `pow` returns a value in `[0, 1]` (the only unmodelled operation). -/
+structure DebiasLaws (ops : ScoreOps σ) : Prop where
+  nonzero : ∀ c d s : Nat, c ≠ 0 → c ≤ d → 1 ≤ s → ops.isZero (ops.contained c d s) = false
+  ge_trans : ∀ a b c : σ, ops.ge a b = true → ops.ge b c = true → ops.ge a c = true
+  ofF_mono : ∀ x y : F64.F, F64.ge x y = true → ops.ge (ops.ofF x) (ops.ofF y) = true
+  dominates : ∀ c d s : Nat, c ≠ 0 → c ≤ d → 1 ≤ s →
+    ops.ge (ops.contained c d s) (ops.ofF (F64.divNat c d)) = true
+
+/-- **the second assert of `peek` (`cont >= threshold`) holds for every threshold**: `match_size` not below
+`fl(bp/scaled)` ⇒ `fl(match_size / n) ≥ fl(fl(bp/scaled) / n)` by monotone rounding, and the containment
+dominates `fl(match_size / n)` -/
+theorem assertLaws_of_debias (L : DebiasLaws ops) {thr : Nat} (hthr : thr < 2 ^ 53) : AssertLaws ops thr := by
+  refine ⟨L.nonzero, ?_⟩
+  intro c k d s t nT hct hnb hk0 hkc hcd hs1 hs2 hd
+  have hc0 : c ≠ 0 := by omega
+  have hperm := prefetchPermissive_calc hthr (lt_of_le_of_lt hs2 (by decide)) hd hct
+  have hc53 : c < 2 ^ 53 := lt_of_le_of_lt hcd hd
+  have hk53 : k < 2 ^ 53 := lt_of_le_of_lt hkc hc53
+  have hnbc : belowThreshold (c : Int) nT = false := by
+    rw [not_below_iff hc53]
+    have h1 := (not_below_iff hk53 nT).1 hnb
+    have h2 : (k : ℚ) ≤ c := by exact_mod_cast hkc
+    linarith
+  have hp := hperm c hcd hc0 hnbc
+  unfold passes scoreContainment at hp
+  rw [if_neg (by omega)] at hp
+  simp only [Bool.and_eq_true, decide_eq_true_eq] at hp
+  exact L.ge_trans _ _ _ (L.dominates c d s hc0 hcd hs1) (L.ofF_mono _ _ hp.2)
+
+/-- the containment without de-biasing: the double quotient `fl(c/d)` -/
+def plainOps : ScoreOps F64.F where
+  contained := fun c d _ => F64.divNat c d
+  ofF := fun x => x
+  gt := fun a b => !F64.ge b a
+  ge := F64.ge
+  isZero := fun a => decide (a.m = 0)
+  ltOne := fun a => !F64.ge a fone
+  std := fun _ => fzero
+  str := fun _ => ""
+
+theorem plainOps_debias : DebiasLaws plainOps := by
+  refine ⟨?_, ?_, ?_, ?_⟩
+  · intro c d s hc hcd _
+    show decide ((F64.divNat c d).m = 0) = false
+    simp only [decide_eq_false_iff_not]
+    exact (F64.divNat_m_ne_zero_iff c d).2 ⟨hc, by omega⟩
+  · intro a b c h1 h2
+    exact F64.ge_trans h1 h2
+  · intro x y h
+    exact h
+  · intro c d s _ _ _
+    exact F64.ge_refl _
+
+theorem plainOps_assertLaws {thr : Nat} (hthr : thr < 2 ^ 53) : AssertLaws plainOps thr :=
+  assertLaws_of_debias plainOps_debias hthr
 
 end Sm.Gather
